@@ -165,6 +165,89 @@ CHECKS.update({
                 'variable.'),
 })
 
+CHECKS.update({
+    'C11': dict(engine='Registry', design='5/C11',
+        technique='TLA+ state machine of function creation / calls over '
+                  'PyYAML\'s copy-on-write class registries, all histories '
+                  'explored by TLC; each history replayed in one process with '
+                  'registry projection after every step and fresh-interpreter '
+                  'reference results; concurrent stress for calls marked par',
+        text='TLC checks BaseClassesUntouched, FunctionsImmutable and '
+             'Isolation over every history of create/call/probe operations '
+             '(different and same-named class sets, valid and invalid '
+             'arguments). Each exported history is executed for real; after '
+             'every operation the harness projects which class owns which '
+             'table, the added tags/representers, _registered_classes, '
+             'fingerprints of all PyYAML loader/dumper/resolver tables, '
+             'yaml.safe_load/safe_dump probe outputs and vars() of the user '
+             'classes and compares them with the specification state; call '
+             'results are compared with the same call in a fresh interpreter.',
+        note='Trusted: the fresh-interpreter result as the meaning of a call; '
+             'thread interleavings are CPython\'s (stress with a 1 microsecond '
+             'switch interval), not enumerated by TLC.'),
+    'C12': dict(engine='SourceSink', design='5/C12',
+        technique='TLA+ model of the source/sink dispatch with file system and '
+                  'handles as state (TLC: all operation sequences); replay '
+                  'instantiates it with behaviours exported by the load, '
+                  'round-trip and JSON-emitter specifications over all kinds',
+        text='TLC checks NoHandleLeak, SourcesAgree, SinksAgree and '
+             'FileHoldsTheText on all operation sequences up to the bound. The '
+             'model is thin by nature (the property is an equivalence across a '
+             'dispatch); the weight is in the binding: each sequence is run '
+             'with documents/values/options taken from the TLC explorations of '
+             'the other specifications, through str, Path, text file, '
+             'StringIO, BytesIO (UTF-8 and UTF-16) sources and file name, '
+             'Path, StringIO, open file sinks, with every Path.open handle '
+             'tracked (closed on success and on error).',
+        note='Load/Dumps are uninterpreted in this module; encoding is the '
+             'locale\'s; a sample of the exported sequences is replayed.'),
+    'C14': dict(engine='NodeMap', design='5/C14',
+        technique='TLA+ ordered-map / typed-scalar state machine (NodeMap) and '
+                  'RemoveDefaults, explored by TLC exhaustively and in '
+                  'simulation mode; every history replayed on real yatiml.Node '
+                  'objects; get_value checked on the witness spellings of the '
+                  'Resolver product automaton',
+        text='TLC checks KeysDistinct, OrderPreserved, NewKeysAppend and '
+             'SetThenGet over all operation histories up to the bound and '
+             'generates random histories of length 12; every return value and '
+             'the wrapped node after every call are compared with the '
+             'specification. RemoveDefaults enumerates all (signature default, '
+             '_yatiml_defaults override, value) triples over the scalar kinds; '
+             'get_value() is compared with PyYAML\'s constructors on every '
+             'spelling class the resolver product automaton distinguishes.',
+        note='Cross-kind numerically equal (default, value) pairs (1 / True / '
+             '1.0) are don\'t-care; the text of null scalars is not compared.'),
+    'C15': dict(engine='Seasoning', design='5/C15',
+        technique='TLA+ operators for the four structural transforms written '
+                  'from the docstrings; TLC checks the inverse laws / no-op / '
+                  'error claims over the whole input universe and exports the '
+                  'predicted result of each transform for replay on real nodes',
+        text='SeqMapSeqInverse, IndexMapIndexInverse (up to the position of '
+             'the key attribute, under the stated side condition), '
+             'NoOpWhenNotApplicable and ErrorOnlyForStrictDuplicates are '
+             'checked by TLC on every node of the universe x value attribute '
+             'x strict; the real Node methods must produce the predicted tree '
+             '(or SeasoningError without modifying the node). Dash/underscore '
+             'key renaming is character-level and checked exhaustively over '
+             'short keys by the harness.',
+        note='Inputs outside the documented domain (items without the key '
+             'attribute, non-string key values) are generated, counted, not '
+             'judged.'),
+    'C16': dict(engine='Require', design='5/C16',
+        technique='TLA+ predicates for the six require_* helpers, typed '
+                  'require_attribute defined through the declarative '
+                  'recognition reference; TLC enumerates all nodes within the '
+                  'bound and exports every verdict; replay on real UnknownNode',
+        text='For every node of up to the bound for five class models TLC '
+             'evaluates each helper for every attribute name, every type of '
+             'the model and every scalar value; the real helper must raise '
+             'RecognitionError exactly when the predicate is false, raise '
+             'nothing else, and leave the node (tags, values, children, '
+             'sharing) unchanged.',
+        note='Typed require_attribute relies on LoadRef.Cand, itself checked '
+             'against the pipeline (C02).'),
+})
+
 NOT_YET = 'check not built yet (work in progress; see DESIGN.md section 5)'
 
 
